@@ -365,7 +365,7 @@ func (w *worker) runPath(fn *ssa.Function, trace []Decision, res *HarnessResult,
 	p = &Path{E: w.e, H: w.h, F: w.F, S: w.S, W: w, trace: trace,
 		globals: map[*ssa.Global]*Obj{}, initDone: map[*ssa.Package]bool{}, initAborted: map[*ssa.Package]string{}, reach: map[string]bool{},
 		pools: map[*Obj][]Value{}, funcs: map[*ssa.Function]bool{}, stubs: map[string]bool{},
-		ufApps: map[string][]*term.T{}, extra: map[string]interface{}{}}
+		ufApps: map[string][]*term.T{}, decided: map[*term.T]bool{}, extra: map[string]interface{}{}}
 	p.extra["res"] = res
 	p.extra["rmu"] = rmu
 	defer func() {
